@@ -452,3 +452,197 @@ Proof.
       destruct e; auto; try (eapply N1; reflexivity); try (eapply N2; reflexivity).
       destruct h; auto. apply (e_hev _ _ _ _ _ _ E) in He. eapply Ni; eauto.
 Qed.
+
+(** ** normalisation at the end of a step of the main thread *)
+Lemma slab_get_remove_same : forall s b, slab_get (slab_remove s b) b = None.
+Proof.
+  intros. unfold slab_get, slab_remove. cbn. rewrite updZ_same. destruct ((0 <=? b) && (b <? slen s)); reflexivity.
+Qed.
+
+Lemma wh_del_none : forall s b, wh_del s b = None -> b mod 4096 = 0 \/ slab_get s b = None.
+Proof.
+  intros s b H. unfold wh_del in H. rewrite waker_del_guard_spec in H.
+  destruct (b mod 4096 =? 0) eqn:E; [left; apply Z.eqb_eq; exact E|]. cbn in H. destruct (slab_get s b); [discriminate|right; reflexivity].
+Qed.
+
+Lemma reserved_not_plain : forall c b w, SInv c -> b mod 4096 = 0 -> slab_get (c_sl c) b <> Some (HPlain w).
+Proof.
+  intros c b w S Hb G. apply slab_get_some in G. destruct G as [R E].
+  apply (s_res c S b R) in Hb. rewrite Hb in E. discriminate E.
+Qed.
+
+Definition norm_head (i : instr) : Prop :=
+  match i with IRun | IHandlers _ | IDels _ | IBms [] | ILeaves _ [] => True | _ => False end.
+
+Lemma d_NS_step : forall st s acc i r s' acc' new m,
+  DRel DNone (NS st s acc (i :: r)) m -> norm_head i ->
+  pushes new = [] ->
+  (forall j, In j (tl new) -> ~ is_yield j) ->
+  (forall h d, hd_error new = Some (IYieldH h d) -> exists w, h = HPlain w /\ memZ w (m12_dead m) = false /\
+     (d = true -> memZ w (m12_begun m) = true /\ (forall x, slab_get s' x <> Some (HPlain w)) /\ 0 <= w < 1000000 /\ wused st w = true)) ->
+  (forall y h, slab_get s' y = Some h -> slab_get s y = Some h) ->
+  (forall y, In y (cont_dels new) -> In y (dels_of i)) ->
+  (forall y w, In y (dl st ++ cont_dels (i :: r)) -> slab_get s y = Some (HPlain w) ->
+     (In y (dl st ++ cont_dels (new ++ r)) /\ slab_get s' y = Some (HPlain w)) \/ hd_error new = Some (IYieldH (HPlain w) true)) ->
+  DRel DNone (NS st s' acc' (new ++ r)) m.
+Proof.
+  intros st s acc i r s' acc' new m R Hi Hpn Hny Hy Hs Hd Hp.
+  destruct (NS_fields st s acc (i :: r)) as [A1 [A2 [A3 [A4 [A5 [A6 [A7 [A8 [A9 A10]]]]]]]]].
+  destruct (NS_fields st s' acc' (new ++ r)) as [B1 [B2 [B3 [B4 [B5 [B6 [B7 [B8 [B9 B10]]]]]]]]].
+  assert (An : nfill (NS st s acc (i :: r)) = nfill st) by reflexivity.
+  assert (Bn : nfill (NS st s' acc' (new ++ r)) = nfill st) by reflexivity.
+  assert (Pk : pipeline (NS st s acc (i :: r)) = dl st ++ cont_dels (i :: r)) by (unfold pipeline; rewrite A2, A8; reflexivity).
+  assert (Pk' : pipeline (NS st s' acc' (new ++ r)) = dl st ++ cont_dels (new ++ r)) by (unfold pipeline; rewrite B2, B8; reflexivity).
+  assert (Hsub : forall y, In y (dl st ++ cont_dels (new ++ r)) -> In y (dl st ++ cont_dels (i :: r))).
+  { intros y Hin. rewrite cont_dels_app in Hin. rewrite cont_dels_cons. rewrite !in_app_iff in *.
+    destruct Hin as [Hin|[Hin|Hin]]; auto. }
+  assert (Ni : ~ is_yield i) by (intros [h [d E]]; subst i; exact Hi).
+  assert (Nd : ~ dropw_ok i) by (destruct i; cbn in Hi; try contradiction; cbn; auto).
+  assert (Pi : push_of i = []) by (destruct i; cbn in Hi; try contradiction; reflexivity).
+  assert (Ry : forall j, In j r -> ~ is_yield j) by (intros j Hj; apply (d_ypos _ _ m R main i r j A8 Hj)).
+  assert (Th : forall u, u <> main -> thr (NS st s' acc' (new ++ r)) u = thr (NS st s acc (i :: r)) u).
+  { intros u Hu. rewrite A10, B10; auto. }
+  assert (Tp : forall u, tpushes (thr (NS st s' acc' (new ++ r)) u) = tpushes (thr (NS st s acc (i :: r)) u)).
+  { intro u. destruct (Nat.eq_dec u main) as [->|E]; [|rewrite Th; auto].
+    unfold tpushes. rewrite A8, B8, A9, B9, pushes_app, Hpn, pushes_cons, Pi. reflexivity. }
+  assert (Hhd : forall j, In j (new ++ r) -> is_yield j -> hd_error new = Some j).
+  { intros j Hj Yj. apply in_app_or in Hj. destruct Hj as [Hj|Hj]; [|exfalso; exact (Ry j Hj Yj)].
+    destruct new as [|n0 new']; [destruct Hj|]. destruct Hj as [->|Hj]; [reflexivity|exfalso; exact (Hny j Hj Yj)]. }
+  assert (Pg : forall w, prog (NS st s acc (i :: r)) m w -> prog (NS st s' acc' (new ++ r)) m w).
+  { intros w [A|[[x [A B]]|A]]; [left; exact A| |].
+    - rewrite Pk in A. rewrite A1 in B. destruct (Hp x w A B) as [[C1 C2]|C].
+      + right; left. exists x. rewrite Pk', B1. auto.
+      + right; right. rewrite B8. destruct new as [|n0 new']; [discriminate C|]. inversion C; subst. left. reflexivity.
+    - rewrite A8 in A. destruct A as [A|A]; [exfalso; apply Ni; subst i; eexists; eexists; reflexivity|].
+      exfalso. apply (Ry _ A). eexists; eexists; reflexivity. }
+  constructor.
+  - apply (d_bad _ _ m R).
+  - intros x y w. rewrite B1. intros G1 G2. apply (d_uniq _ _ m R x y w); rewrite A1; apply Hs; assumption.
+  - intros x w. rewrite B1, B4, Bn. intro G. rewrite <- A4, <- An. apply (d_used _ _ m R x w). rewrite A1. apply Hs. exact G.
+  - rewrite Bn, <- An. apply (d_nfill _ _ m R).
+  - intros u i0 r0 j Hk Hj. destruct (Nat.eq_dec u main) as [->|Hu]; [|rewrite Th in Hk by auto; apply (d_ypos _ _ m R u i0 r0 j Hk Hj)].
+    rewrite B8 in Hk. destruct new as [|n0 new'].
+    + cbn in Hk. apply Ry. rewrite Hk. right. exact Hj.
+    + cbn in Hk. inversion Hk; subst. apply in_app_or in Hj. destruct Hj as [Hj|Hj]; [apply Hny; exact Hj|apply Ry; exact Hj].
+  - intros u j Hu Hj. rewrite Th in Hj by auto. apply (d_ymain _ _ m R u j Hu Hj).
+  - intros w d H. rewrite B8 in H. pose proof (Hhd _ H ltac:(eexists; eexists; reflexivity)) as Hh.
+    destruct (Hy _ _ Hh) as [w0 [E0 [Y1 Y2]]]. inversion E0; subst w0. split; [exact Y1|]. rewrite B1, B4. exact Y2.
+  - intros w H. rewrite B1, B4. destruct (d_dead _ _ m R w H) as [D1 [D2 D3]]. rewrite A4 in D2. split; [exact D1|]. split; [exact D2|].
+    intros x G. apply (D3 x). rewrite A1. apply Hs. exact G.
+  - intros u x w H. rewrite B4, <- A4. rewrite Tp in H. apply (d_push _ _ m R u x w H).
+  - intros x w Hin G. rewrite B4, <- A4. rewrite B1 in G. rewrite Pk' in Hin. apply (d_pipe _ _ m R x w); [rewrite Pk; apply Hsub; exact Hin|rewrite A1; apply Hs; exact G].
+  - intros w H. apply Pg. apply (d_done _ _ m R w H).
+  - intros u w Hu. destruct (Nat.eq_dec u main) as [->|Hn].
+    + exfalso. assert (Hu0 : tcur (thr (NS st s acc (i :: r)) main) = Some (CDropW w)) by (rewrite <- Hu; unfold NS; thr_simpl).
+      destruct (d_cmd _ _ m R main w Hu0) as [[D _]|[_ [_ [_ [D4 _]]]]]; [discriminate D|]. apply Nd. apply D4. rewrite A8. left. reflexivity.
+    + rewrite Th in * by auto. destruct (d_cmd _ _ m R u w Hu) as [[D _]|[D1 [D2 [D3 [D4 D5]]]]]; [discriminate D|]. right.
+      split; [exact D1|]. split; [exact D2|]. split; [exact D3|]. split; [exact D4|]. destruct D5 as [D5|D5]; [left; exact D5|right; apply Pg; exact D5].
+  - intros u w H. discriminate H.
+Qed.
+
+Lemma norm_D : forall fuel st s acc k ev s1 acc1 k1 ev1 m,
+  CInv (core (NS st s acc k)) -> SlInv (NS st s acc k) -> DRel DNone (NS st s acc k) m ->
+  norm fuel s acc k ev = (s1, acc1, k1, ev1) -> DRel DNone (NS st s1 acc1 k1) m.
+Proof.
+  induction fuel as [|f IH]; intros st s acc k ev s1 acc1 k1 ev1 m I S R H; cbn [norm] in H.
+  - inversion H; subst. exact R.
+  - assert (StepI : forall s' acc' k', f_norm1 (core (NS st s acc k)) = Some (set_norm (core (NS st s acc k)) s' acc' k') ->
+                                      CInv (core (NS st s' acc' k'))).
+    { intros s' acc' k' E. eapply pres_norm1 in E; eauto.
+      eapply CInv_ceq; [|exact E]. eapply ceq_trans; [apply NS_ceq|apply NS_NS]. }
+    assert (Simple : forall i r new acc', k = i :: r -> norm_head i -> pushes new = [] -> (forall j, In j new -> ~ is_yield j) ->
+              cont_dels new = dels_of i -> DRel DNone (NS st s acc' (new ++ r)) m).
+    { intros i r new acc' -> Hi Hp Hy Hd. apply (d_NS_step st s acc i r s acc' new m R Hi Hp).
+      - intros j Hj. apply Hy. destruct new; [destruct Hj|right; exact Hj].
+      - intros h d E. exfalso. destruct new as [|n0 new']; [discriminate E|]. inversion E; subst. apply (Hy _ (or_introl eq_refl)). eexists; eexists; reflexivity.
+      - auto.
+      - intros y Hin. rewrite Hd in Hin. exact Hin.
+      - intros y w Hin G. left. split; [|exact G]. rewrite cont_dels_app, Hd. rewrite cont_dels_cons in Hin. exact Hin. }
+    destruct k as [|i r]; [inversion H; subst; exact R|].
+    destruct i as [c| |[|bm bms]|bm [|a ls]| |[|b bs]|[|b bs]| | | | | | | |];
+      try (inversion H; subst; exact R).
+    + eapply IH; [| | |exact H].
+      * apply StepI. reflexivity.
+      * eapply sl_NS_frame; [exact S| |]; reflexivity.
+      * apply (Simple _ r (@nil instr) acc eq_refl Logic.I eq_refl); [intros j []|reflexivity].
+    + eapply IH; [| | |exact H].
+      * apply StepI. reflexivity.
+      * eapply sl_NS_frame; [exact S| |]; reflexivity.
+      * apply (Simple _ r (@nil instr) acc eq_refl Logic.I eq_refl); [intros j []|reflexivity].
+    + eapply IH; [| | |exact H].
+      * apply StepI. reflexivity.
+      * eapply sl_NS_frame; [exact S| |]; reflexivity.
+      * apply (Simple _ r [IHandlers acc] [] eq_refl Logic.I eq_refl); [|reflexivity].
+        intros j [<-|[]] [h [d E]]; discriminate E.
+    + eapply IH; [| | |exact H].
+      * apply StepI. reflexivity.
+      * eapply sl_NS_frame; [exact S| |]; reflexivity.
+      * apply (Simple _ r (@nil instr) acc eq_refl Logic.I eq_refl); [intros j []|reflexivity].
+    + destruct (slab_get s b) as [h|] eqn:E.
+      * inversion H; subst s1 acc1 k1 ev1. destruct (hinstrs_plain h false) as [Dh Ph].
+        replace (hinstrs h false ++ IHandlers bs :: r) with ((hinstrs h false ++ [IHandlers bs]) ++ r) by (rewrite <- app_assoc; reflexivity).
+        apply (d_NS_step st s acc _ r s acc _ m R Logic.I).
+        -- rewrite pushes_app, Ph. reflexivity.
+        -- intros j Hj [h0 [d0 Ej]]. subst j. destruct h; cbn in Hj; repeat (destruct Hj as [Hj|Hj]; [discriminate Hj|]); contradiction.
+        -- intros h0 d0 Eh. destruct h as [w| |c0|p0]; cbn in Eh; try discriminate Eh. inversion Eh; subst h0 d0.
+           exists w. split; [reflexivity|]. split; [|intro X; discriminate X].
+           destruct (memZ w (m12_dead m)) eqn:Ed; [|reflexivity]. exfalso.
+           destruct (d_dead _ _ m R w Ed) as [_ [_ D3]]. apply (D3 b). exact E.
+        -- auto.
+        -- intros y Hin. rewrite cont_dels_app, Dh in Hin. destruct Hin.
+        -- intros y w Hin G. left. split; [|exact G]. rewrite cont_dels_app, cont_dels_app, Dh. rewrite cont_dels_cons in Hin. exact Hin.
+      * eapply IH; [| | |exact H].
+        -- apply StepI. cbn. unfold updN, th, main. cbn. rewrite E. reflexivity.
+        -- eapply sl_NS_frame; [exact S| |]; reflexivity.
+        -- apply (Simple _ r [IHandlers bs] acc eq_refl Logic.I eq_refl); [|reflexivity].
+           intros j [<-|[]] [h [d E0]]; discriminate E0.
+    + eapply IH; [| | |exact H].
+      * apply StepI. reflexivity.
+      * eapply sl_NS_frame; [exact S| |]; reflexivity.
+      * apply (Simple _ r (@nil instr) acc eq_refl Logic.I eq_refl); [intros j []|reflexivity].
+    + destruct (wh_del s b) as [[h s']|] eqn:E.
+      * inversion H; subst s1 acc1 k1 ev1. pose proof E as E0. apply wh_del_some in E0. destruct E0 as [Hb [Gb ->]].
+        destruct (hinstrs_plain h true) as [Dh Ph].
+        assert (Pin : In b (pipeline (NS st s acc (IDels (b :: bs) :: r)))).
+        { unfold pipeline. apply in_or_app. right. replace (tcont (thr (NS st s acc (IDels (b :: bs) :: r)) main)) with (IDels (b :: bs) :: r) by (unfold NS; thr_simpl).
+          rewrite cont_dels_cons. left. reflexivity. }
+        pose proof (sl_nodup _ S) as Nd. unfold pipeline in Nd.
+        replace (tcont (thr (NS st s acc (IDels (b :: bs) :: r)) main)) with (IDels (b :: bs) :: r) in Nd by (unfold NS; thr_simpl).
+        change (dl (NS st s acc (IDels (b :: bs) :: r))) with (dl st) in Nd. rewrite cont_dels_cons in Nd. cbn [dels_of] in Nd.
+        replace (hinstrs h true ++ IDels bs :: r) with ((hinstrs h true ++ [IDels bs]) ++ r) by (rewrite <- app_assoc; reflexivity).
+        apply (d_NS_step st s acc _ r (slab_remove s b) acc _ m R Logic.I).
+        -- rewrite pushes_app, Ph. reflexivity.
+        -- intros j Hj [h0 [d0 Ej]]. subst j. destruct h; cbn in Hj; repeat (destruct Hj as [Hj|Hj]; [discriminate Hj|]); contradiction.
+        -- intros h0 d0 Eh. destruct h as [w| |c0|p0]; cbn in Eh; try discriminate Eh. inversion Eh; subst h0 d0.
+           exists w. split; [reflexivity|]. split.
+           ++ destruct (memZ w (m12_dead m)) eqn:Ed; [|reflexivity]. exfalso.
+              destruct (d_dead _ _ m R w Ed) as [_ [_ D3]]. apply (D3 b). exact Gb.
+           ++ intros _. destruct (d_pipe _ _ m R b w Pin Gb) as [P1 [P2 P3]]. split; [exact P1|]. split; [|split; [exact P2|exact P3]].
+              intros x Gx. destruct (Z.eq_dec x b) as [->|Nx]; [rewrite slab_get_remove_same in Gx; discriminate Gx|].
+              rewrite slab_get_remove_other in Gx by exact Nx. apply Nx. apply (d_uniq _ _ m R x b w Gx Gb).
+        -- intros y h0 G. destruct (Z.eq_dec y b) as [->|Ny]; [rewrite slab_get_remove_same in G; discriminate G|].
+           rewrite slab_get_remove_other in G by exact Ny. exact G.
+        -- intros y Hin. rewrite cont_dels_app, Dh in Hin. cbn in Hin. rewrite app_nil_r in Hin. right. exact Hin.
+        -- intros y w Hin G. destruct (Z.eq_dec y b) as [->|Ny].
+           ++ right. change (slab_get (sl (NS st s acc (IDels (b :: bs) :: r))) b) with (slab_get s b) in Gb. rewrite Gb in G. inversion G; subst h. reflexivity.
+           ++ left. split; [|rewrite slab_get_remove_other by exact Ny; exact G].
+              rewrite cont_dels_app, cont_dels_app, Dh. cbn [app cont_dels flat_map dels_of]. rewrite app_nil_r.
+              rewrite cont_dels_cons in Hin. cbn [dels_of] in Hin. rewrite !in_app_iff in *. cbn in Hin.
+              destruct Hin as [Hin|[[Hin|Hin]|Hin]]; auto. congruence.
+      * eapply IH; [| | |exact H].
+        -- apply StepI. cbn. unfold updN, th, main. cbn. rewrite E. reflexivity.
+        -- eapply (sl_NS_del st s acc b bs r); [exact S|left; reflexivity| |]; [rewrite cont_dels_cons; reflexivity|rewrite pushes_cons; reflexivity].
+        -- replace (IDels bs :: r) with ([IDels bs] ++ r) by reflexivity.
+           apply (d_NS_step st s acc _ r s acc _ m R Logic.I).
+           ++ reflexivity.
+           ++ intros j [].
+           ++ intros h d X. discriminate X.
+           ++ auto.
+           ++ intros y Hin. cbn in Hin. rewrite app_nil_r in Hin. right. exact Hin.
+           ++ intros y w Hin G. left. split; [|exact G].
+              destruct (Z.eq_dec y b) as [->|Ny].
+              ** exfalso. apply wh_del_none in E. destruct E as [E|E]; [|congruence].
+                 eapply (reserved_not_plain (core (NS st s acc (IDels (b :: bs) :: r))) b w (i_slab _ I) E). exact G.
+              ** rewrite cont_dels_cons in Hin. cbn [dels_of] in Hin. cbn [app]. rewrite cont_dels_cons. cbn [dels_of]. rewrite !in_app_iff in *. cbn in Hin.
+                 destruct Hin as [Hin|[[Hin|Hin]|Hin]]; auto. congruence.
+Qed.
